@@ -621,6 +621,12 @@ def kind_of(v):
             return KInt
         if isinstance(v.py, float):
             return KReal
+        if isinstance(v.py, str):
+            from .builtins import KStr
+            return KStr
+        if isinstance(v.py, (bytes, bytearray)):
+            from .builtins import KBytes
+            return KBytes
         raise TypeError(f'no kind for constant {v.py!r}')
     k = v.kind
     if k is None:
